@@ -40,6 +40,7 @@ type PropCfg struct {
 	Level        string     `json:"level,omitempty"`
 	BoundedTests []string   `json:"bounded_tests,omitempty"` // Go tests under /verif/bounded run on the real code (bounded stand-ins)
 	KindPass     bool       `json:"kind_pass,omitempty"`     // C12: wrap-around kind discipline over every function
+	PoolPass     bool       `json:"pool_pass,omitempty"`     // C15: pooled-buffer typestate over every function
 }
 
 type KnownFinding struct {
@@ -231,6 +232,11 @@ func cmdCheck(args []string) {
 		} else if env.funcs[k] == nil && isLocalKey(env, k) {
 			unbound = append(unbound, "contract for missing function "+k)
 		}
+	}
+	if pc.PoolPass {
+		pu := runPoolDiscipline(env)
+		units = append(units, pu)
+		puOf[pu] = PropUnit{Unit: "pool-typestate", Sel: []string{"all"}}
 	}
 	if pc.KindPass {
 		ku := runKindDiscipline(env)
@@ -613,6 +619,11 @@ func writeReplay(vdir, prop string, o *Oblig, env *Env, repo string) replayInfo 
 		src, _ := os.ReadFile(filepath.Join(vdir, "bounded", strings.TrimPrefix(o.Name, "bounded:")))
 		rr = replayResult{Attempted: true, Reproduced: true, Test: string(src), Extra: []string{"-run", "^TestVerifBounded$", "-v"}, Output: o.Output,
 			Command: "go test -overlay <overlay> -vet=off -count=1 -run ^TestVerifBounded$ -v .  (the bounded test run on the real code)"}
+	}
+	if o.Kind == "pool" {
+		extraOverlay = map[string]string{"bufferpool.go": poolSanitizerSrc}
+		rr = runReplayTest(repo, strings.ReplaceAll(poolReplayTest, "%%", "%"))
+		extraOverlay = nil
 	}
 	if o.Kind == "kind" {
 		rr = runReplayTest(repo, fmt.Sprintf(wrapReplayTest))
